@@ -58,18 +58,17 @@ theorem rerun_succeeds (p : Params) (w : World2) (injs : List (Nat → Inj)) (he
   rw [(recover p w injs).1, (recover p w injs).2]
   exact h
 
-/-- the client write call sites inside `func Upgrade`, from the regenerated inventory of /repo -/
-def upgradeSites : List (String × String × String × String) := Gen.writeSites.filter (fun s => s.2.1 == "Upgrade")
-
-/-- **Fact check on the source.** Within `Upgrade` there is no write site on Pods or PersistentVolumeClaims, the only delete
-    is on StatefulSets, and the sites are exactly the five write calls of the model (revision update; create, update,
-    update-status of the Advanced set; delete of the built-in set). -/
+/-- **Fact check on the source.** `Gen.upgradeWriteKinds` is regenerated from /repo on every check: the (resource, verb) pairs
+    of the client write calls in `Upgrade` and in every function of its package it can reach by static calls. There is no
+    write on Pods or PersistentVolumeClaims, the only delete is on StatefulSets, and the kinds are exactly the five write
+    calls of the model (revision update; create, update, update-status of the Advanced set; delete of the built-in set) —
+    however the body of `Upgrade` is split into helper functions. -/
 theorem upgrade_sites_no_pod_claim_write :
-    upgradeSites.all (fun s => s.2.2.1 != "Pods" && s.2.2.1 != "PersistentVolumeClaims" &&
-      ((s.2.2.2 != "Delete" && s.2.2.2 != "DeleteCollection") || s.2.2.1 == "StatefulSets")) = true ∧
-    upgradeSites.map (fun s => (s.2.2.1, s.2.2.2)) =
-      [("ControllerRevisions", "Update"), ("StatefulSets", "Create"), ("StatefulSets", "Delete"), ("StatefulSets", "UpdateStatus"),
-       ("StatefulSets", "Update")] := by
+    Gen.upgradeWriteKinds.all (fun s => s.1 != "Pods" && s.1 != "PersistentVolumeClaims" &&
+      ((s.2 != "Delete" && s.2 != "DeleteCollection") || s.1 == "StatefulSets")) = true ∧
+    Gen.upgradeWriteKinds =
+      [("ControllerRevisions", "Update"), ("StatefulSets", "Create"), ("StatefulSets", "Delete"), ("StatefulSets", "Update"),
+       ("StatefulSets", "UpdateStatus")] := by
   decide
 
 /-! non-vacuity: a three-revision world (one foreign revision), a selector with match labels and an expression; the first run
